@@ -62,8 +62,30 @@ def _types_of(ex, node, st, fr):
     return res
 
 
+def _epoch(st):
+    v = st.ghost.get('epoch')
+    return v.t if v is not None else z3.IntVal(0)
+
+
+def _tick(st):
+    """a handshake message was read or written: the running transcript moved on"""
+    st.ghost['epoch'] = VInt(_epoch(st) + 1)
+
+
+SNAP = z3.Function('ghost_snapshot_epoch', smt.Val, z3.IntSort())
+
+
 def _mk_spec(role):
+    def h_copy(ex, recv, args, kwargs, st, fr, node):
+        """<hash object>.copy(): a snapshot; the ghost function SNAP remembers at which point of the transcript"""
+        r = fresh_opaque('hh_snapshot')
+        src_ = ast.unparse(node.func.value) if isinstance(node.func, ast.Attribute) else ''
+        if src_ == 'self._handshake_hash':
+            st.assume(SNAP(r.t) == _epoch(st))
+        return [Outcome('normal', st, r)]
+
     def h_getMsg(ex, recv, args, kwargs, st, fr, node):
+        _tick(st)
         r = fresh_opaque('msg')
         st.events.append(('_getMsg', args, r))
         ts = _types_of(ex, node, st, fr)
@@ -78,6 +100,7 @@ def _mk_spec(role):
         return [Outcome('normal', st, r)]
 
     def h_send(ex, recv, args, kwargs, st, fr, node):
+        _tick(st)
         r = fresh_opaque('sent')
         st.events.append(('send', args, r))
         g = st.ghost
@@ -96,6 +119,7 @@ def _mk_spec(role):
 
     def h_sendmsgs(ex, recv, args, kwargs, st, fr, node):
         # the client's last flight: [client Finished] (built just before as cl_finished / msgs)
+        _tick(st)
         r = fresh_opaque('sent_flight')
         st.events.append(('send', args, r))
         st.ghost['sent_own_finished'] = VBool(z3.BoolVal(True))
@@ -116,8 +140,7 @@ def _mk_spec(role):
         if lab in ('c hs traffic', 's hs traffic', 'c ap traffic', 's ap traffic', 'exp master', 'res master'):
             ob('transcript-argument-is-the-live-handshake-hash-or-a-snapshot-taken-at-the-same-point',
                z3.BoolVal(hh is not None) if hh is None else z3.Or(to_val(hh) == to_val(live),
-                                                                    truthy(g.get('snapshot_is_current:%d' % id(hh), F)),
-                                                                    z3.BoolVal(isinstance(hh, VOpaque) and 'pure_copy' in str(hh.t))))
+                                                                    SNAP(to_val(hh)) == _epoch(st)))
         if role == 'server':
             if lab in ('c ap traffic', 's ap traffic'):
                 ob('after-own-Finished-was-sent', truthy(g.get('sent_own_finished', F)))
@@ -148,9 +171,9 @@ def _mk_spec(role):
         g['derived:' + str(lab)] = VBool(z3.BoolVal(True))
         return [Outcome('normal', st, r)]
 
-    return M2Spec(hooks={'_sendError': h_sendError, '_getMsg': h_getMsg, '_sendMsg': h_send, '_queue_message': h_send, '_sendMsgs': h_sendmsgs,
+    return M2Spec(hooks={'_sendError': h_sendError, 'copy': h_copy, '_getMsg': h_getMsg, '_sendMsg': h_send, '_queue_message': h_send, '_sendMsgs': h_sendmsgs,
                          'derive_secret': h_derive},
-                  pure={'getExtension', 'copy', 'digest', 'isinstance', 'len', 'HKDF_expand_label', 'secureHMAC', 'toRepr',
+                  pure={'getExtension', 'digest', 'isinstance', 'len', 'HKDF_expand_label', 'secureHMAC', 'toRepr',
                         'getHash', 'getPadding', 'decode', '_getPRFParams'})
 
 
